@@ -25,10 +25,11 @@ import (
 )
 
 type Fault struct {
-	Kind string `json:"kind"` // none bitflip zero member-replace truncate toc-chunkdigest toc-size toc-offset toc-name toc-drop toc-add toc-reorder toc-reserialize
-	A    int    `json:"a,omitempty"` // selects the target chunk / entry
-	B    int    `json:"b,omitempty"` // selects position / second entry
-	Via  string `json:"via"`         // registry | registry-late | httpcache-file | fscache-file
+	Kind string `json:"kind"`           // none bitflip zero member-replace truncate toc-chunkdigest toc-size toc-offset toc-name toc-drop toc-add toc-reorder toc-reserialize
+	A    int    `json:"a,omitempty"`    // selects the target chunk / entry
+	B    int    `json:"b,omitempty"`    // selects position / second entry
+	Via  string `json:"via"`            // registry | registry-late | httpcache-file | fscache-file
+	File string `json:"file,omitempty"` // payload faults: restrict the target chunk to this file
 }
 
 type Step struct {
@@ -56,6 +57,10 @@ func gen(t *rapid.T) Case {
 	c.Archive = tarmodel.Gen(t, tarmodel.GenOpts{MaxEntries: 10, ChunkSize: cs, Hardlinks: true, Spellings: true})
 	// make sure there is file data to corrupt
 	c.Archive.Entries = append(c.Archive.Entries, tarmodel.Entry{Name: "zz-data", Type: "reg", Mode: 0o644, MTime: 1600000000, Size: rapid.SampledFrom([]int{1, cs, cs + 1, 2*cs + 1, 3 * cs}).Draw(t, "zzsize"), Seed: 99})
+	if rapid.Bool().Draw(t, "prioritized") {
+		// with a prefetch landmark Prefetch itself fills the chunk cache (verifying as it goes)
+		c.Opts.Prioritized = []string{"zz-data"}
+	}
 	c.Cfg = fullstack.GenConfig(t)
 	if rapid.IntRange(0, 3).Draw(t, "pt") == 0 {
 		c.Cfg.PassThrough = true
@@ -80,7 +85,7 @@ func gen(t *rapid.T) Case {
 		}
 	}
 	c.Steps = rapid.SliceOfN(rapid.Custom(func(t *rapid.T) Step {
-		s := Step{Op: rapid.SampledFrom([]string{"prefetch", "prefetch-async", "bgfetch", "verify-good", "verify-good", "verify-bad", "verify-alt", "skip", "read", "read", "read", "readall", "readall", "reresolve", "inject"}).Draw(t, "op")}
+		s := Step{Op: rapid.SampledFrom([]string{"prefetch", "prefetch-async", "bgfetch", "verify-good", "verify-good", "verify-racing", "verify-racing", "verify-bad", "verify-alt", "skip", "read", "read", "read", "readall", "readall", "reresolve", "inject"}).Draw(t, "op")}
 		s.File = rapid.IntRange(0, 20).Draw(t, "file")
 		s.Off = rapid.SampledFrom([]int{0, 0, 1, cs - 1, cs, cs + 1, 2 * cs}).Draw(t, "off")
 		if s.Off < 0 {
@@ -89,6 +94,18 @@ func gen(t *rapid.T) Case {
 		s.Len = rapid.SampledFrom([]int{1, 2, cs, cs + 1, 3*cs + 2, 500}).Draw(t, "len")
 		return s
 	}), 2, 14).Draw(t, "steps")
+	if rapid.IntRange(0, 5).Draw(t, "racescenario") == 0 {
+		// the interleaving the property names explicitly: an altered chunk of a prioritized file is cached by
+		// prefetch while the verification call is taking its decision, then read
+		c.Opts.Prioritized = []string{"zz-data"}
+		c.Fault = Fault{Kind: rapid.SampledFrom([]string{"member-replace", "member-replace", "bitflip", "zero"}).Draw(t, "rfault"), A: c.Fault.A, B: c.Fault.B, Via: "registry", File: "zz-data"}
+		pre := []Step{{Op: "verify-racing"}}
+		if rapid.Bool().Draw(t, "skipfirst") {
+			pre = []Step{{Op: "skip"}, {Op: "verify-racing"}}
+		}
+		c.Steps = append(pre, c.Steps...)
+		c.Steps = append(c.Steps, Step{Op: "readall", File: -1}, Step{Op: "readall", File: rapid.IntRange(0, 20).Draw(t, "rfile")})
+	}
 	return c
 }
 
@@ -137,6 +154,15 @@ func alter(c Case, good *esgzbuild.Built, p *esgzref.Parsed) (blob, ext []byte, 
 			}
 			chunks = append(chunks, chunkRef{file: cur, entry: e, idx: i, next: next})
 		}
+	}
+	if f.File != "" {
+		var only []chunkRef
+		for _, c := range chunks {
+			if c.file == f.File {
+				only = append(only, c)
+			}
+		}
+		chunks = only
 	}
 	if len(chunks) == 0 {
 		return blob, ext, tocDigest, false
@@ -193,11 +219,17 @@ func alter(c Case, good *esgzbuild.Built, p *esgzref.Parsed) (blob, ext []byte, 
 		raw = append([]byte(nil), raw...)
 		at := ch.entry.InnerOffset + int64(f.B)%size
 		raw[at] ^= 0x20
+		// same length as the original member, so that the footer, the TOC and every other offset stay valid:
+		// a validly compressed different payload in the very place the TOC points at
 		var nm []byte
+		var ok bool
 		if p.Kind == "zstd" {
-			nm = esgzref.ZstdFrame(raw)
+			nm, ok = esgzref.ZstdFrameSized(raw, len(member))
 		} else {
-			nm = esgzref.GzipMember(raw)
+			nm, ok = esgzref.GzipMemberSized(raw, len(member))
+		}
+		if !ok {
+			return blob, ext, tocDigest, false
 		}
 		b := append([]byte(nil), good.Blob[:ch.entry.Offset]...)
 		b = append(b, nm...)
@@ -469,8 +501,27 @@ func run(c Case, ev *pbt.Ev) error {
 				return pbt.Violf("resolve-failed", "step %d: re-resolving failed: %v", i, err)
 			}
 			ev.Class("second-resolve")
-		case "verify-good", "verify-bad", "verify-alt":
+		case "verify-good", "verify-bad", "verify-alt", "verify-racing":
 			d := good.TOCDigest
+			if s.Op == "verify-racing" {
+				// harness-owned schedule: prefetch and background caching run to completion at the moment the
+				// verification call reads the TOC digest, i.e. in the middle of its decision
+				ll := l
+				st.ArmTOCDigestGate(func() {
+					done := make(chan struct{})
+					prefetchWG.Add(1)
+					go func() {
+						defer prefetchWG.Done()
+						ll.Prefetch(int64(1 << 20))
+						close(done) // (background fetch waits for the verification call by itself: it asks for Info())
+						ll.BackgroundFetch()
+					}()
+					select {
+					case <-done:
+					case <-time.After(3 * time.Second):
+					}
+				})
+			}
 			if s.Op == "verify-bad" {
 				d = esgzref.Sha256([]byte("not the toc"))
 			}
@@ -478,6 +529,9 @@ func run(c Case, ev *pbt.Ev) error {
 				d = badTOCDigest
 			}
 			err := l.Verify(digest.Digest(d))
+			if s.Op == "verify-racing" && st.DisarmTOCDigestGate() {
+				ev.Class("caching-inside-verify")
+			}
 			if err == nil {
 				if d != resolvedTOC {
 					if decided != "" && pbt.Known("C01-verify-noop-after-decision") {
@@ -524,7 +578,12 @@ func run(c Case, ev *pbt.Ev) error {
 				ev.Skipped++
 				continue
 			}
-			name := fnames[s.File%len(fnames)]
+			name := fnames[((s.File%len(fnames))+len(fnames))%len(fnames)]
+			if s.File < 0 {
+				if _, ok := files["zz-data"]; ok {
+					name = "zz-data"
+				}
+			}
 			off, ln := s.Off, s.Len
 			if s.Op == "readall" {
 				off, ln = 0, len(files[name].Content)+3
